@@ -309,7 +309,7 @@ func VerifC01_Create() {
 // (or finest) archive with clock advances and a reopen, then an arbitrary fetch checked
 // against a ghost map interval -> last write.
 func VerifC01_Hist() {
-	ls := []string{"5s:15s"}
+	ls := []string{"1s:2s"}
 	if vrt.Tier() == 1 {
 		ls = []string{"1s:2s", "1s:3s", "5s:15s", "1s:2s,2s:6s"}
 	}
